@@ -287,6 +287,24 @@ def run_case(case):
                                       "tags": op[5], "with_tags": [obs["score"], obs["ret"], w], "all_unknown": [o_u["score"], o_u["ret"], gfi._to_int(w_u)]})
                 fails += check_trace(obs, tr, kind)
                 res = {"ok": True, "tr": obs, "w": w}
+                if case.get("derived") and stored is None:
+                    # C38: Trace.edit / Trace.update / DiffAnnotate(identity maps) equal the primitive path
+                    from genjax import DiffAnnotate
+
+                    def same_as_primitive(out2, what):
+                        o2 = _obs_trace(out2[0], atys, rty, universe, stored)
+                        if (o2["choices"], o2["score"], o2["ret"], o2["args"], gfi._to_int(out2[1])) != (
+                                obs["choices"], obs["score"], obs["ret"], obs["args"], w):
+                            fails.append({"prop": "C38", "why": what + " differs from request.edit(key, trace, argdiffs)",
+                                          "derived": [o2["score"], o2["ret"], gfi._to_int(out2[1])],
+                                          "primitive": [obs["score"], obs["ret"], w]})
+
+                    k2 = jax.random.key(seed)
+                    same_as_primitive(cur.edit(k2, req, ad), "Trace.edit(key, request, argdiffs)")
+                    same_as_primitive(DiffAnnotate(req).edit(k2, cur, ad), "DiffAnnotate(request) with identity maps")
+                    if kind == "upd":
+                        same_as_primitive(cur.update(k2, req.constraint, ad), "Trace.update(key, constraint, argdiffs)")
+                        same_as_primitive(gf.update(k2, cur, req.constraint, ad), "GenerativeFunction.update")
                 # retdiff: primal + NoChange leaves (C08)
                 try:
                     prim = gfi.canon_val(gfi.from_jax(Diff.tree_primal(rd), rty))
@@ -382,6 +400,10 @@ def run_case(case):
                 _, selt = op
                 sel = gfi.build_sel(selt)
                 w = gfi._to_int(J(lambda k, t: t.project(k, sel))(jax.random.key(0), cur))
+                if case.get("derived"):
+                    w_gf = gfi._to_int(cur.get_gen_fn().project(jax.random.key(0), cur, sel))
+                    if w_gf != w:
+                        fails.append({"prop": "C38", "why": "Trace.project differs from GenerativeFunction.project", "trace": w, "gen_fn": w_gf})
                 if cur_obs.get("_sites") is not None:   # C10
                     want = sum(site_lp(s) for s in cur_obs["_sites"] if _sel_member(sel, s[0]))
                     if w != want:
